@@ -132,16 +132,23 @@ type G struct {
 
 var hdrRe = regexp.MustCompile(`(?m)^goroutine (\d+) \[([^\]]+)\]:$`)
 
+var (
+	snapMu  sync.Mutex
+	snapBuf = make([]byte, 1<<20) // reused: allocating 1 MB per snapshot made settle-heavy runs an order of magnitude slower
+)
+
 // Snapshot returns all goroutines (stop-the-world).
 func Snapshot() []G {
-	buf := make([]byte, 1<<20)
+	snapMu.Lock()
+	defer snapMu.Unlock()
+	var buf []byte
 	for {
-		n := runtime.Stack(buf, true)
-		if n < len(buf) {
-			buf = buf[:n]
+		n := runtime.Stack(snapBuf, true)
+		if n < len(snapBuf) {
+			buf = snapBuf[:n]
 			break
 		}
-		buf = make([]byte, 2*len(buf))
+		snapBuf = make([]byte, 2*len(snapBuf))
 	}
 	var gs []G
 	for _, blk := range bytes.Split(buf, []byte("\n\n")) {
